@@ -719,6 +719,10 @@ where
         &self,
         start_index: usize,
     ) -> Result<Graph<NullVertex, NullEdge>, Error> {
+        if !self.has_vertex(start_index) {
+            return Err(Error::GraphVertexNotFound(start_index));
+        }
+
         let mut graph = Graph::new();
         for vertex in &self.vertices {
             graph.insert_vertex(NullVertex::new(*vertex.0))?;
